@@ -46,7 +46,6 @@ def _search_blocks_for_fe(input_path: str, thread_idx: int, block_starts: List[i
                       f'[num_blocks={len(block_starts)}, first={block_starts[0]} B, last={block_starts[-1]} B]',
                       depth=2)
     header = MessageHeader()
-    message_end = 0
     num_syncs = 0
     # Data corresponding to raw values in FileIndex._RAW_DTYPE.
     raw_list: List[Tuple[int, int, int, int]] = []
@@ -91,10 +90,10 @@ def _search_blocks_for_fe(input_path: str, thread_idx: int, block_starts: List[i
             # is relatively low, so this code is in a much less hot path then the preamble sync above.
             for i in sync_matches:
                 absolute_offset = i + block_offset
-                # Don't check preambles found inside other valid messages. Generally, this didn't
-                # provide much speed up, but could prevent wasting cycles if the message size is large.
-                if absolute_offset < message_end:
-                    continue
+                # Note: Preambles found inside other valid messages are _not_ skipped here. This search may have started
+                # in the middle of a message (at a block boundary), so it cannot know which candidates a sequential
+                # read of the file would pass over. All valid candidates are reported, and the sequential pass in
+                # fast_generate_index() decides.
 
                 try:
                     # Check if the message has a valid length and CRC. This could probably be optimized.
@@ -117,7 +116,6 @@ def _search_blocks_for_fe(input_path: str, thread_idx: int, block_starts: List[i
                             pass
                     # Convert the Timestamp to an integer.
                     p1_time_raw = Timestamp._INVALID if math.isnan(p1_time.seconds) else int(p1_time.seconds)
-                    message_end = absolute_offset + header.get_message_size()
                     if _logger.isEnabledFor(logging.getTraceLevel(depth=3)):
                         _logger.trace(f'Thread {thread_idx}, block {i}: message={header.message_type.to_string()}, '
                                       f'file_offset={absolute_offset} B, p1_time={p1_time}',
@@ -206,14 +204,20 @@ def fast_generate_index(
     # it can end up indexed. Look at the offsets and sizes of the detected
     # messages, and filter out messages that fall within previous messages.
     #
-    # Find the end offsets of the messages.
+    # Walk the candidates in file order exactly as a sequential read of the file would: a candidate is a message if it
+    # starts at or after the end of the previously accepted message. (Comparing against the largest end offset of _all_
+    # earlier candidates instead would let a candidate that starts inside one message and extends past its end hide the
+    # messages that follow.)
     total_entries = len(index_raw)
     if total_entries > 0:
-        expected_msg_ends = index_raw[:]['offset'] + index_raw[:]['size']
-        # Propagate forward the largest endpoint found to handle multiple encapsulated messages.
-        expected_msg_ends = np.maximum.accumulate(expected_msg_ends)
-        # Find the messages that start after the previous message.
-        non_overlapped_idx = np.concatenate([[True], index_raw[1:]['offset'] >= expected_msg_ends[:-1]])
+        offsets = index_raw['offset'].tolist()
+        sizes = index_raw['size'].tolist()
+        non_overlapped_idx = np.zeros(total_entries, dtype=bool)
+        prev_message_end = 0
+        for i in range(total_entries):
+            if offsets[i] >= prev_message_end:
+                non_overlapped_idx[i] = True
+                prev_message_end = offsets[i] + sizes[i]
         _logger.debug(f'Dropped {np.sum(~non_overlapped_idx)} wrapped messages.')
         index_raw = index_raw[non_overlapped_idx]
 
